@@ -22,18 +22,21 @@ Definition nat_mem (n : nat) (l : list nat) : bool := existsb (Nat.eqb n) l.
 Definition same_set (a b : list string) : bool :=
   forallb (fun x => mem x b) a && forallb (fun x => mem x a) b.
 
-(** parser.go stores the directives of a spread on the shared fragment, so one decorated spread changes
-    what every spread of that fragment does (C19's subject): Flatten is compared only without them. *)
-Fixpoint has_spread_dirs (it : titem) : bool :=
+(** Flatten is compared on queries without directives only: what directives do at Flatten time
+    (spread directives stored on the shared fragment, fields excluded before or after grouping) is
+    C19's subject and is being repaired there. *)
+Definition no_dirs {A} (l : list A) : bool := match l with [] => true | _ => false end.
+
+Fixpoint has_dirs (it : titem) : bool :=
   match it with
-  | TField _ _ _ _ None => false
-  | TField _ _ _ _ (Some l) => existsb has_spread_dirs l
-  | TSpread _ ds => match ds with [] => false | _ => true end
-  | TInline _ _ l => existsb has_spread_dirs l
+  | TField _ _ _ ds None => negb (no_dirs ds)
+  | TField _ _ _ ds (Some l) => negb (no_dirs ds) || existsb has_dirs l
+  | TSpread _ ds => negb (no_dirs ds)
+  | TInline _ ds l => negb (no_dirs ds) || existsb has_dirs l
   end.
 
-Definition query_has_spread_dirs (q : query) : bool :=
-  existsb has_spread_dirs (q_sel q) || existsb (fun e => existsb has_spread_dirs (snd (snd e))) (q_frags q).
+Definition query_has_dirs (q : query) : bool :=
+  existsb has_dirs (q_sel q) || existsb (fun e => existsb has_dirs (snd (snd e))) (q_frags q).
 
 Definition root_of (kind : string) : string := if String.eqb kind "mutation" then "Mutation" else "Query".
 
@@ -53,7 +56,7 @@ Definition check_case (sch : schema) (c : ccase) : list nat :=
             (if nat_mem 0 codes then
                if String.eqb (q_name q) name && String.eqb (q_kind q) kind then [] else [2]
              else []) ++
-            (if nat_mem 0 codes && negb (query_has_spread_dirs q) then
+            (if nat_mem 0 codes && negb (query_has_dirs q) then
                match flatten cur (q_frags q) (q_sel q), flat with
                | ROk st, FOk l => if f_unknown st then [] else if same_set (f_aliases st) l then [] else [3]
                | ROk st, _ => if f_unknown st then [] else [3]
